@@ -65,7 +65,12 @@ def decide(mod, case):
         budget.set_level_for_case(codec.digest(case))
     except TypeError:
         pass
-    return mod.check_case(case)
+    from . import sut
+    sut.NOTES.clear()
+    v = mod.check_case(case)
+    if sut.NOTES and hasattr(v, "cls"):
+        v.cls(*sorted(sut.NOTES))
+    return v
 
 
 class Phase:
